@@ -447,6 +447,65 @@ fn w8_target_search<R: Rng>(rng: &mut R, st: &mut Stats, iterations: u32) {
     }
 }
 
+/// W9: states with several occupied sites of different multiplicity (public
+/// `PackedState::initialise`): copies of different sites overlap like any others.
+pub fn w9_multi_site(seed: u64, st: &mut Stats) {
+    use packing::wallpaper::{Wallpaper, WyckoffSite};
+    use packing::{CrystalFamily, LineShape, Transform2};
+    let mut rng = crate::common::rng_for(seed, 909);
+    let group = ["p2", "p1", "p2mg", "p1m1", "p2gg", "p2mm"][rng.gen_range(0, 6)];
+    let wg = match libx::lib_group(group) {
+        Ok(g) => g,
+        Err(_) => return,
+    };
+    let general = match WyckoffSite::new(&wg) {
+        Ok(s) => s,
+        Err(_) => return,
+    };
+    let one = |ops: &[&str]| WyckoffSite { letter: 'b', symmetries: ops.iter().filter_map(|o| Transform2::from_operations(o).ok()).collect(), num_rotations: 1, mirror_primary: false, mirror_secondary: false };
+    let mut sites = match rng.gen_range(0, 4) {
+        0 => vec![general.clone(), one(&["x,y"])],
+        1 => vec![general.clone(), one(&["x,y"]), one(&["x,y"])],
+        2 => vec![general.clone(), general.clone()],
+        _ => vec![one(&["x,y"]), one(&["x,y"]), one(&["x,y"])],
+    };
+    let k = rng.gen_range(0, sites.len());
+    sites.swap(0, k);
+    let sides = rng.gen_range(3, 9);
+    let shape = match LineShape::polygon(sides) {
+        Ok(s) => s,
+        Err(_) => return,
+    };
+    let area = shape.oshape().area();
+    let family = if libx::is_oblique(group) { CrystalFamily::Monoclinic } else { CrystalFamily::Orthorhombic };
+    let state0 = PackedState::initialise(shape, Wallpaper { name: group.to_string(), family }, &sites);
+    let mut v = match serde_json::to_value(&state0) {
+        Ok(v) => v,
+        Err(_) => return,
+    };
+    let n: usize = sites.iter().map(|s| s.symmetries.len()).sum();
+    let ratio: f64 = rng.gen_range(0.3, 1.);
+    let angle: f64 = if libx::is_oblique(group) { rng.gen_range(PI / 6., PI / 2.) } else { PI / 2. };
+    // cell area = copies x shape area x (0.9 .. 3)
+    let kk: f64 = rng.gen_range(0.9, 3.);
+    let len = (n as f64 * area * kk / (ratio * angle.sin())).sqrt();
+    v["cell"]["length"] = json!(len);
+    v["cell"]["ratio"] = json!(ratio);
+    v["cell"]["angle"] = json!(angle);
+    for i in 0..sites.len() {
+        v["occupied_sites"][i]["x"] = json!(rand_site_coord(&mut rng, false));
+        v["occupied_sites"][i]["y"] = json!(rand_site_coord(&mut rng, false));
+        v["occupied_sites"][i]["angle"] = json!(rng.gen_range(0., 2. * PI));
+    }
+    let state: PackedState<LineShape> = match serde_json::from_value(v) {
+        Ok(s) => s,
+        Err(_) => return,
+    };
+    st.count("w9_multi_site_states");
+    let case = Case { group: group.to_string(), shape: ShapeSpec::Polygon { sides }, params: Params { len, ratio, angle, x: 0., y: 0., phi: 0. }, workload: format!("W9-several-sites seed={}", seed) };
+    judge(&state, &case, st);
+}
+
 fn dispatch_w<R: Rng>(which: u8, rng: &mut R, st: &mut Stats) {
     let focus = which == 2;
     let (group, spec, p) = rand_config(rng, focus);
@@ -650,7 +709,7 @@ pub fn gen_history<R: Rng>(rng: &mut R) -> History {
 }
 
 pub fn run(ctx: &Ctx) {
-    ctx.set_rule("W1 uniform states (7 groups x polygons 3..12 / circle / trimers x cells x sites incl. exact faces and special positions, cell area 0.8-2.5 x the copies' area); W2 boundary-focused: per configuration (copies 1e-5..1e-1 from cell faces, ratio down to 0.1, angle down to pi/6) the cell length is bisected to the oracle's first contact L* and the library is asked at L*(1-eps), eps in {1e-5,1e-3,1e-2,3e-2,0.1,0.2}, and at L*(1+1e-6); W3 real three-stage optimiser pipelines (hill-climb and CLI-shaped) observed through Spy: every stage result and a bounded sample of scored evaluations; W4 JSON files written by the CLI; W8 targeted search: for a chosen image (n,m) of the second or third shell and an ordered pair of copies, the margin between that pair's contact length and every other pair's is climbed over (ratio, angle, site, orientation) with exact contact lengths from separating axes, and where the chosen image touches first the library is asked between its contact length and the next one's; W7 flat-histogram walks: the W2 procedure along Markov chains over (ratio, angle, site, orientation) that are accepted towards first-contact classes - ordered pair of copies x lattice image (n,m) - visited less often, so that rare images (corners of the second and third shell) get their share of probes; W5 state objects that live through histories of 3-13 edits (several parameters at once - set, rescaled by powers of two, negated, nudged, exchanged, reset -, shape or cell replaced, clone(), JSON round trip), judged after every edit. Oracle: exhaustive image enumeration from cell heights + SAT/disc depth; event = library score defined while depth > 1e-9 (re-confirmed by polygon clipping / lens point). Non-trivial = scored states within 5% R of contact, and overlapping states (where a miss is possible); distinct by quantised parameters");
+    ctx.set_rule("W1 uniform states (7 groups x polygons 3..12 / circle / trimers x cells x sites incl. exact faces and special positions, cell area 0.8-2.5 x the copies' area); W2 boundary-focused: per configuration (copies 1e-5..1e-1 from cell faces, ratio down to 0.1, angle down to pi/6) the cell length is bisected to the oracle's first contact L* and the library is asked at L*(1-eps), eps in {1e-5,1e-3,1e-2,3e-2,0.1,0.2}, and at L*(1+1e-6); W3 real three-stage optimiser pipelines (hill-climb and CLI-shaped) observed through Spy: every stage result and a bounded sample of scored evaluations; W4 JSON files written by the CLI; W9 states with several occupied sites of different multiplicity around contact densities; W8 targeted search: for a chosen image (n,m) of the second or third shell and an ordered pair of copies, the margin between that pair's contact length and every other pair's is climbed over (ratio, angle, site, orientation) with exact contact lengths from separating axes, and where the chosen image touches first the library is asked between its contact length and the next one's; W7 flat-histogram walks: the W2 procedure along Markov chains over (ratio, angle, site, orientation) that are accepted towards first-contact classes - ordered pair of copies x lattice image (n,m) - visited less often, so that rare images (corners of the second and third shell) get their share of probes; W5 state objects that live through histories of 3-13 edits (several parameters at once - set, rescaled by powers of two, negated, nudged, exchanged, reset -, shape or cell replaced, clone(), JSON round trip), judged after every edit. Oracle: exhaustive image enumeration from cell heights + SAT/disc depth; event = library score defined while depth > 1e-9 (re-confirmed by polygon clipping / lens point). Non-trivial = scored states within 5% R of contact, and overlapping states (where a miss is possible); distinct by quantised parameters");
     ctx.assume("convex regular polygons and unions of discs; placements are taken from cartesian_positions() (their correctness is C04/C14/C15)");
     let tier = ctx.tier;
     // per shard (64 shards)
@@ -673,6 +732,9 @@ pub fn run(ctx: &Ctx) {
         }
         for _ in 0..n2 / 80 {
             w8_target_search(rng, st, 400);
+        }
+        for _ in 0..n1 / 2 {
+            w9_multi_site(rng.gen(), st);
         }
     });
     let prev = std::panic::take_hook();
